@@ -61,6 +61,11 @@ func (k Keeper) IsProofSessionHeightWithinTolerance(ctx sdk.Ctx, relaySessionBlo
 	if relaySessionBlockHeight <= 0 {
 		return false
 	}
+	// It must be the first block of a session: any other height inside the tolerated
+	// range names a session that does not exist.
+	if (relaySessionBlockHeight-1)%k.posKeeper.BlocksPerSession(ctx) != 0 {
+		return false
+	}
 	latestSessionHeight := k.GetLatestSessionBlockHeight(ctx)
 	tolerance := types.GlobalPocketConfig.ClientSessionSyncAllowance * k.posKeeper.BlocksPerSession(ctx)
 	minHeight := latestSessionHeight - tolerance
